@@ -125,6 +125,9 @@ class ElemEval:
             return a_ + b_ if name == 'add_outer' else a_ - b_
         if name == 'arange' and len(pos) == 1 and len(ix) == 1:
             return ix[0]
+        if name == 'arange' and len(pos) in (2, 3) and len(ix) == 1 and all(isinstance(x, Poly) for x in pos):
+            step = pos[2] if len(pos) == 3 else Poly.const(1)
+            return pos[0] + step * ix[0]
         if name == 'fft.fftfreq' and len(ix) == 1:
             return nf.app('fftfreq_at', pos[0], ix[0])
         if name == 'meshgrid' and len(pos) == 4 and len(ix) == 2:
